@@ -1023,9 +1023,16 @@ func (t *txattrwalk) handle(cs *connState) message {
 			return linux.EINVAL
 		}
 		size = len(buf)
+
+		// The new fid needs a File of its own: a fidRef closes its File
+		// when its last reference is dropped, and ref keeps using this one.
+		_, xattrFile, err := ref.file.Walk(nil)
+		if err != nil {
+			return err
+		}
 		newRef := &fidRef{
 			server: cs.server,
-			file:   ref.file,
+			file:   xattrFile,
 			pendingXattr: pendingXattr{
 				op:   xattrWalk,
 				name: t.Name,
